@@ -1123,4 +1123,73 @@ def _split(sig):
     return out
 
 
-RULES = [rule_next_level, rule_terminal_type, rule_index_kind, rule_fold_zeros, rule_card_skipped, rule_mark_once, rule_array_extent, rule_position_kind, rule_operand_unpack, rule_chain_args]
+def rule_compare_after_store(P):
+    """"did this slot change?" must be asked before the slot is overwritten: after U->setFull(i, v, p) the slot holds (v, p), so a later comparison of
+    v with the slot's edge value, or of p with its child, is a comparison of a value with itself (seed C08c: saturation's addToCi then reports every
+    distance-only improvement as "unchanged" and the row is not re-queued)"""
+    R = RuleResult("level.compare-after-store", "no comparison of v with edgeval(U,i) / U->edgeval(i), or of p with U->down(i), is reachable from U->setFull(i, v, p) without another write to U in between")
+    n = 0
+    seen = set()
+    for f in sorted(P.fns.values(), key=lambda f: (f["file"], f["line"], f["inst"])):
+        if not f.get("cfg") or not f["file"].startswith("operations/") or (f["file"], f["line"]) in seen:
+            continue
+        g = None
+        evs = [e for b in f["cfg"]["blocks"] for e in b["ev"]]
+        sets = [e for e in evs if e["k"] == "call" and e["q"] in (M + "unpacked_node::setFull", M + "unpacked_node::setSparse") and re.fullmatch(r"\w+", _nz(e.get("recv") or ""))]
+        if not sets:
+            continue
+        seen.add((f["file"], f["line"]))
+        g = Graph(f)
+        for k in g.nodes:
+            if k.kind != "call" or k.ev["q"] not in (M + "unpacked_node::setFull",) or not re.fullmatch(r"\w+", _nz(k.ev.get("recv") or "")):
+                continue
+            U = _nz(k.ev["recv"])
+            a = [_nz(x) for x in k.ev["args"]]
+            if len(a) == 3:
+                i_, v_, p_ = a
+            elif len(a) == 2:
+                i_, v_, p_ = a[0], None, a[1]
+            else:
+                continue
+            if not re.fullmatch(r"\w+", i_):
+                continue
+            n += 1
+            R.functions.add(f["inst"])
+            R.paths += 1
+            writes = lambda x, U=U: x.kind == "call" and x.ev["q"].startswith(M + "unpacked_node::") and x.ev["q"].split("::")[-1] in ("setFull", "setSparse", "initFromNode", "initRedundant", "initIdentity", "clear", "resize") and _nz(x.ev.get("recv") or "") == U
+            after = g.reach([s_ for s_, _i in k.succ], avoid=lambda x: writes(x) or (x.kind == "ldef" and x.ev["var"] in (i_, v_, p_)))
+            bad = None
+            for x in (g.nodes[j] for j in after):
+                txt = None
+                if x.kind == "branch" and x.cond:
+                    txt = x.cond["text"]
+                elif x.kind == "ret":
+                    txt = x.ev.get("text")
+                elif x.kind == "ldef":
+                    txt = x.ev.get("rhs")
+                if not txt:
+                    continue
+                t = _nz(txt)
+                slot_ev = r"(?:edgeval\(%s,%s\)|%s->edgeval\(%s\))" % (re.escape(U), re.escape(i_), re.escape(U), re.escape(i_))
+                slot_dn = r"%s->down\(%s\)" % (re.escape(U), re.escape(i_))
+                pats = []
+                if v_ and re.fullmatch(r"\w+", v_):
+                    pats += [r"(?<!\w)%s(==|!=)%s" % (re.escape(v_), slot_ev), r"%s(==|!=)%s(?!\w)" % (slot_ev, re.escape(v_))]
+                if p_ and re.fullmatch(r"\w+", p_):
+                    pats += [r"(?<!\w)%s(==|!=)%s" % (re.escape(p_), slot_dn), r"%s(==|!=)%s(?!\w)" % (slot_dn, re.escape(p_))]
+                if any(re.search(pt, t) for pt in pats):
+                    bad = x
+                    break
+            iid = "%s: %s->setFull(%s) is not followed by a comparison with the slot it wrote" % (base_name(f["q"]).replace(M, "")[:50], U, ", ".join(a))
+            if bad is None:
+                R.instances.append({"id": iid, "where": where(f, k.line), "ok": True}) if len(R.instances) < 300 else None
+            else:
+                R.fail(iid, where(f, bad.line), Finding(R.rule, f["file"], base_name(f["q"]), "self-compare:%s[%s]" % (U, i_),
+                       "after %s->setFull(%s) the comparison `%s` reads back what was just stored: it can never see a change" % (U, ", ".join(a), _nz(bad.cond["text"] if bad.kind == "branch" else (bad.ev.get("text") or bad.ev.get("rhs")))[:80]), bad.line))
+    if n < 100:
+        raise AnalysisBroken("level.compare-after-store: only %d setFull sites found, expected ≥100" % n)
+    R.require_floor(100, "setFull sites")
+    return R
+
+
+RULES = [rule_next_level, rule_terminal_type, rule_index_kind, rule_fold_zeros, rule_card_skipped, rule_mark_once, rule_array_extent, rule_position_kind, rule_operand_unpack, rule_chain_args, rule_compare_after_store]
